@@ -34,7 +34,7 @@ import numpy as np
 from hypothesis import strategies as st
 
 from .. import boot
-from ..common import quiet, chunk_bytes, st_composition, boundary_n, split_blocks
+from ..common import quiet, chunk_bytes, st_composition, boundary_n
 
 import dclab
 from dclab import RTDCWriter
